@@ -224,13 +224,43 @@ def _observe(parser, PErr, expr):
     return ('ok', repr(path.subset_slice), tuple((c.separator, c.id, repr(c.slice)) for c in path.components))
 
 
+def _tuplify(x):
+    return tuple(_tuplify(i) for i in x) if isinstance(x, (list, tuple)) else x
+
+
+def parser_goldens():
+    """what each parser configuration answers for each expression when it is the ONLY parser its process ever created: one
+    fresh Python process per configuration (a process-wide memo would otherwise decide the golden by whoever parsed first)"""
+    import json
+    import subprocess
+    import sys
+    from mc.engine.harness import VERIF
+    out = []
+    for pi in range(len(HIST_PARSERS)):
+        r = subprocess.run([sys.executable, '-m', 'mc.checks.c15', 'golden', str(pi)], cwd=VERIF, capture_output=True, text=True,
+                           timeout=300)
+        if r.returncode != 0:
+            raise RuntimeError('golden process failed: ' + r.stderr[-300:])
+        out.append(json.loads(r.stdout))
+    return out
+
+
+def golden_main(pi):
+    import json
+    import sys
+    NodePathParser, PErr = _impl()
+    parser = NodePathParser(**HIST_PARSERS[pi])
+    sys.stdout.write(json.dumps([_observe(NodePathParser(**HIST_PARSERS[pi]), PErr, e) for e in HIST_EXPRS]))
+    return 0
+
+
 def run_parser_histories(args):
     import itertools
-    firsts, length = args
+    firsts, length, gold = args
     NodePathParser, PErr = _impl()
     p = Partial()
     ev = [(pi, ei) for pi in range(len(HIST_PARSERS)) for ei in range(len(HIST_EXPRS))]
-    golden = {(pi, ei): _observe(NodePathParser(**HIST_PARSERS[pi]), PErr, HIST_EXPRS[ei]) for pi, ei in ev}
+    golden = {(pi, ei): tuple(_tuplify(gold[pi][ei])) for pi, ei in ev}
     for first in firsts:
         for rest in itertools.product(range(len(ev)), repeat=length - 1):
             h = (first,) + rest
@@ -261,7 +291,7 @@ def replay(part, case):
         for pi, ei in case['history']:
             got = _observe(parsers[pi], PErr, HIST_EXPRS[ei])
         pi, ei = case['history'][-1]
-        gold = _observe(NodePathParser(**HIST_PARSERS[pi]), PErr, HIST_EXPRS[ei])
+        gold = _tuplify(parser_goldens()[pi][ei])
         return [{'sig': 'parser-history|%s' % ('other-configuration' if HIST_PARSERS[pi] else 'default'),
                  'detail': '%r vs fresh %r' % (got, gold)}] if got != gold else []
     outcome, v = judge(NodePathParser(), PErr, case)
@@ -303,9 +333,16 @@ def main(tier, seed):
     rep.add_part('mutations', p, bounds={'seeds': len(SEEDS), 'edit_distance': 1, 'cases': len(muts)})
     nev = len(HIST_PARSERS) * len(HIST_EXPRS)
     hl = 3 if tier == 'quick' else 4
-    p = merge_all(run_shards(run_parser_histories, [([i], hl) for i in range(nev)]))
+    gold = parser_goldens()
+    p = merge_all(run_shards(run_parser_histories, [([i], hl, gold) for i in range(nev)]))
     rep.add_part('parser-histories', p, bounds={'parsers': ['default', 'bare_id_matches_all=False', 'default'], 'expressions': HIST_EXPRS,
                                                 'history_length': hl, 'histories': nev ** hl},
                  rule='every sequence of (parser object, expression) parses over three parser objects living in one process; each '
                       'step is compared with a fresh parser of the same configuration')
     return rep.finish()
+
+
+if __name__ == '__main__':
+    import sys
+    if len(sys.argv) > 2 and sys.argv[1] == 'golden':
+        sys.exit(golden_main(int(sys.argv[2])))
